@@ -1,6 +1,7 @@
 /-
   C19 — gama-g3 reproduces consistent global networks, independent of algorithm.
-  Property theorems only; helper lemmas live in Gama/Lemmas/{NeuLemmas,G3BookLemmas,AdjXmlLemmas}.lean.
+  Property theorems only; helper lemmas live in Gama/Lemmas/{NeuLemmas,G3BookLemmas,AdjXmlLemmas,G3LinReal,G3LinZenith,
+  G3LinAngle,G3AngleRhs,G3ParserLemmas,G3Assemble,G3NetLemmas,G3OneStep,G3NetExample}.lean.
 
   What is specific to gama-g3 is proved here; the adjustment itself (class `Adj`, four algorithms:
   minimiser, equality of the algorithms, defect) is C01–C04.  Reading guide:
@@ -671,7 +672,9 @@ theorem C19_consistent_network_reproduced {ι : Type} [DecidableEq ι] (net : Ne
     observed coordinates this is `C19_vector_one_step` / `C19_xyz_one_step`, any displacement within `tol_abs`), the
     weight matrix is positive definite and the design matrix has full column rank, then every least-squares solution is
     `x = ξ` with zero residuals, and the reported coordinates are `X₀ + R·ξ_point/1000` — the generating ones.
-    (Distances and angles are not linear: for them this holds up to second order, which the end-to-end oracle bounds.) -/
+    (Distances and angles are not linear: for them this holds up to second order, which the end-to-end oracle bounds.)
+    The hypothesis `hlin` is *derived* for vector / xyz / height / height-difference networks in
+    `C19_generated_network_is_linear`; `C19_one_step_linear_network_reproduced` is this theorem without it. -/
 theorem C19_one_step_network_reproduced {ι : Type} [DecidableEq ι] (net : Net ι ℝ) (nobs : List (NObs ι ℝ))
     (ξ : Fin (bookOf net nobs).idx.cols → ℝ)
     (hlin : ∀ p ∈ netEqsR net nobs, p.2 = @rowDot ℝ realScalar p.1 (vecAt ξ))
